@@ -58,7 +58,7 @@ def tsv_text(states, header):
         if st == "missing":
             continue
         hap = st if st in ("H1", "H2") else ("H2" if st == "twice" else "none")
-        ps = {"r1": "1205", "r2": "77001"}[read] if hap != "none" else "none"
+        ps = "1205" if hap != "none" else "none"  # the same phase-set id on two contigs: ids are only unique per contig
         line = f"{read}\t{hap}\t{ps}\tchr{1 if read == 'r1' else 2}"
         lines.append(line)
         if st == "twice":
@@ -71,7 +71,7 @@ def expected_phase(read, states):
     if st in ("none", "missing"):
         return None
     hap = "H2" if st == "twice" else st
-    return hap, f"chr{1 if read == 'r1' else 2}", {"r1": "1205", "r2": "77001"}[read]
+    return hap, f"chr{1 if read == 'r1' else 2}", "1205"
 
 
 def well_formed_field(f):
@@ -82,7 +82,7 @@ def well_formed_field(f):
     return len(t) == 2 and t[0].isalpha() and t[1].isalnum() and ty in "AifZHB" and len(ty) == 1 and not (ty != "Z" and v == "") and not v.startswith(":")
 
 
-def judge(res, scratch, recs, states, header):
+def judge(res, scratch, recs, states, header, large=False):
     from gaftools.cli import phase
 
     gaf = os.path.join(scratch, "in.gaf")
@@ -95,6 +95,8 @@ def judge(res, scratch, recs, states, header):
     out = fw.guarded(phase.run, gaf_file=gaf, tsv_file=tsv, output=outp)
     res.evaluations += 1
     case = {"records": [r.line() for r in recs], "states": list(states), "header": header}
+    if large:
+        case = {"large": len(recs), "states": list(states), "header": header}
     if len(recs) >= 2 or any(r.strand == "-" or r.opt for r in recs):
         res.nt(fw.h64(case))
     if out.kind != "ok":
@@ -161,6 +163,11 @@ def run_shard(spec, tier, scratch):
                 if k > 1 and (n + STATES.index(states[0]) * 5 + STATES.index(states[1])) % 5 and len({r.qname for r in recs}) == 1:
                     continue
                 judge(res, scratch, recs, states, header=(n % 2 == 0))
+    if spec["shard"] == 1 % spec["of"]:
+        # one deliberately large file (beyond any plausible batching threshold)
+        big = [A[(i * 7) % len(A)] for i in range(2503)]
+        judge(res, scratch, big, ("H1", "H2"), header=True, large=True)
+        res.count("large_file_records", len(big))
     if spec["shard"] == 0:
         res.sample({"records": [A[2].line(), A[13].line()], "tsv": tsv_text(("H1", "twice"), True).split("\n")[:-1]})
     return res
@@ -168,5 +175,9 @@ def run_shard(spec, tier, scratch):
 
 def replay(case, scratch):
     res = fw.ShardResult()
+    if "large" in case:
+        A = alphabet()
+        judge(res, scratch, [A[(i * 7) % len(A)] for i in range(case["large"])], tuple(case["states"]), case["header"], large=True)
+        return res.failures
     judge(res, scratch, [rgfa.Rec.parse(l) for l in case["records"]], tuple(case["states"]), case["header"])
     return res.failures
